@@ -5,6 +5,7 @@ import (
 	"bytes"
 	"errors"
 	"net"
+	"strings"
 	"sync"
 	"time"
 
@@ -93,6 +94,7 @@ func (cj *CookieJar) getCookiesByHost(host string) []*fasthttp.Cookie {
 	now := time.Now()
 	cookies := cj.hostCookies[host]
 
+	purged := false
 	for i := 0; i < len(cookies); i++ {
 		c := cookies[i]
 		// Remove expired cookies.
@@ -100,7 +102,13 @@ func (cj *CookieJar) getCookiesByHost(host string) []*fasthttp.Cookie {
 			cookies = append(cookies[:i], cookies[i+1:]...)
 			fasthttp.ReleaseCookie(c)
 			i--
+			purged = true
 		}
+	}
+	if purged {
+		// The jar must forget the purged cookies too: they are back in the pool.
+		clear(cookies[len(cookies):cap(cookies)])
+		cj.hostCookies[strings.Clone(host)] = cookies // host may alias the caller's buffer
 	}
 
 	return cookies
